@@ -157,6 +157,25 @@ def reconfigured_sweep_cases(tier, seed):
                         yield dict(base, calls=calls)
 
 
+def interrupted_cleanup_cases(tier, seed):
+    """a call fails half-way (its request out, its reply owed, or the request only partly written) and the clean-up that follows -
+    the close() of the connection - is itself cut short by an interruption; the application survives and goes on with the
+    same object"""
+    lib = [r for r in faultlab.op_library() if r["op"] in ("get", "set", "get_many", "incr", "delete", "set_many", "gats", "version", "touch")][::2]
+    firsts = [{"kind": "recv", "nth": 0, "what": "timeout"}, {"kind": "recv", "nth": 0, "what": "reset"}, {"kind": "sendall", "nth": 0, "what": "timeout", "delivered": "first"},
+              {"reply": 0, "tamper": "garbage"}, {"reply": 0, "tamper": "trunc", "at": 3, "then": "silence"}]
+    for kind, extra in (("client", {}), ("pooled", {"max_pool_size": 1}), ("hash", {}), ("hash-pooled", {"max_pool_size": 1}), ("aws", {})):
+        for r in lib:
+            if kind.startswith(("hash", "aws")) and r["op"] in faultlab.HASH_UNSUPPORTED:
+                continue
+            for f1 in firsts:
+                for what in faultlab.INTERRUPTS:
+                    for ie in ((False,) if r["op"] not in faultlab.READ_OPS else (False, True)):
+                        base = {"kind": kind, "cfg": dict(extra, ignore_exc=ie), "follow": True,
+                                "calls": [{"op": {"op": "get", "key": "warmup"}}, {"op": r, "faults": [f1, {"kind": "close", "nth": 0, "what": what}]}] + c01.FOLLOW}
+                        yield base
+
+
 ERROR_OPS = [{"op": "get", "key": "bad key"}, {"op": "set", "key": "k", "value": b"v", "expire": "x"}, {"op": "incr", "key": "t", "delta": "x"},
              {"op": "cas", "key": "t", "value": b"v", "cas": "not-a-number"}, {"op": "get_many", "keys": ["t", "bad key"]},
              {"op": "set", "key": "k" * 251, "value": b"v"}, {"op": "touch", "key": "t", "expire": None}, {"op": "delete_many", "keys": ["a", "b\n"]}]
@@ -212,6 +231,7 @@ PARTS = [
     Part("after-close-interruptions", "enum", check, cases=after_close_sweep_cases, exhaustive=True),
     Part("idle-expiry-interruptions", "enum", check, cases=idle_sweep_cases, exhaustive=True),
     Part("input-error-then-interruption", "enum", check, cases=error_then_interrupt_cases, exhaustive=True),
+    Part("interrupted-clean-up", "enum", check, cases=interrupted_cleanup_cases, exhaustive=True),
     Part("reconfigured-at-run-time", "enum", check, cases=reconfigured_sweep_cases, exhaustive=True),
     Part("re-entrant-interruptions", "enum", check_reentrant, cases=reentrant_cases, exhaustive=True),
     Part("random-histories", "hyp", check, strategy=history_strategy,
